@@ -217,6 +217,42 @@ func Scenarios(rng *Rand, lossless, mixed bool, quality int, classes []int) []*H
 			out = append(out, h)
 		}
 	}
+	// (l) a forced key frame right after a small sub-frame, then a picture in which that
+	// sub-frame's area becomes transparent and a distant pixel changes: the dispose-background
+	// simulation must use the key frame's rectangle (the whole canvas), not the older one
+	for _, kmax := range []int{2, 3} {
+		w, hh := rng.Range(8, 12), rng.Range(8, 12)
+		h := mk(w, hh, 0, kmax, 0)
+		p := make([]byte, w*hh*4)
+		for i := 0; i < w*hh; i++ {
+			randPixel(rng, ClassOpaque, p[i*4:])
+		}
+		add(h, p, 10)
+		px, py := 2*rng.Range(1, 2), 2*rng.Range(1, 2)
+		for n := 1; n < kmax; n++ { // small sub-frames at R = (px,py)+2x2
+			q := append([]byte(nil), p...)
+			for y := py; y < py+2; y++ {
+				for x := px; x < px+2; x++ {
+					copy(q[(y*w+x)*4:], []byte{byte(rng.U64()), byte(n), 7, 255})
+				}
+			}
+			p = q
+			add(h, p, 10)
+		}
+		q := append([]byte(nil), p...) // the forced key frame
+		q[((hh-1)*w+w-1)*4] ^= 0x55
+		p = q
+		add(h, p, 10)
+		q = append([]byte(nil), p...) // R cleared, a distant pixel changed
+		for y := py; y < py+2; y++ {
+			for x := px; x < px+2; x++ {
+				copy(q[(y*w+x)*4:], []byte{0, 0, 0, 0})
+			}
+		}
+		q[((py+3)*w+px+3)*4+1] ^= 0x33
+		add(h, q, 10)
+		out = append(out, h)
+	}
 	// random placements on top
 	for _, h := range out {
 		for i := range h.Frames {
